@@ -11,6 +11,6 @@ timeout 900 /venv/bin/python _seed/demo.py > _seed/confirm_demo_clean.out 2>&1; 
 git apply "$p"
 timeout 900 /venv/bin/python _seed/demo.py > _seed/confirm_demo_changed.out 2>&1; changed=$?
 echo "CONFIRM: demo exit clean=$clean changed=$changed"
-timeout 3000 /venv/bin/python -m pytest -q -p no:cacheprovider --timeout=900 --continue-on-collection-errors --junitxml="$wt/_seed/confirm_junit.xml" Tests > _seed/confirm_tests.out 2>&1
+timeout 6000 /venv/bin/python -m pytest -q -p no:cacheprovider --timeout=900 --continue-on-collection-errors --junitxml="$wt/_seed/confirm_junit.xml" Tests > _seed/confirm_tests.out 2>&1
 tail -1 _seed/confirm_tests.out
 grep -E "^FAILED|^ERROR" _seed/confirm_tests.out | head -10
